@@ -339,7 +339,13 @@ def cmd_tests(n):
     ms = {m["id"]: m for m in load("mutants.jsonl")}
     ck = {r["id"]: r for r in load("checked.jsonl")}
     done = {r["id"] for r in load("tested.jsonl")}
-    cand = sorted(i for i, r in ck.items() if not r["caught"] and i in ms and ms[i]["file"] != "xgcm/transform.py")
+    def out_of_scope(m):
+        """Not behaviour any property speaks about: textual representations, warnings, legacy helpers nobody calls."""
+        f = m["function"]
+        return (f.endswith("__repr__") or f.endswith("_coord_desc") or f.startswith("raw_") or f == "_maybe_get_axis_kwarg_from_mapping" or f == ""
+                or (m["op"] == "delstmt" and "warn" in m["old"]) or "TYPE_CHECKING" in m["old"])
+
+    cand = sorted(i for i, r in ck.items() if not r["caught"] and i in ms and ms[i]["file"] != "xgcm/transform.py" and not out_of_scope(ms[i]))
     random.Random(20260929).shuffle(cand)
     todo = [i for i in cand[:n] if i not in done]
     print("to test:", len(todo), "of", len(cand), "uncaught (transform.py excluded: its tests need numba)")
